@@ -115,6 +115,9 @@ pub struct Interp {
 	pub commits_since_open: usize,
 	/// every root key id ever inserted (col, id)
 	pub ever_roots: BTreeSet<(u8, u16)>,
+	/// after an I/O failure the writer is stopped: a removal that was accepted but never logged
+	/// need not be visible (trees / rc keys have no overlay entry for removals)
+	pub relaxed_dead: bool,
 }
 
 pub struct LockedTree {
@@ -162,6 +165,7 @@ impl Interp {
 			sync_track: None,
 			commits_since_open: 0,
 			ever_roots: BTreeSet::new(),
+			relaxed_dead: false,
 		}
 	}
 
@@ -680,6 +684,9 @@ impl Interp {
 	/// a commit may have left the queue but not reached the log yet, so only "no commit since
 	/// the last (re)open" is certain.
 	pub fn queue_empty(&self) -> bool {
+		if self.relaxed_dead {
+			return false
+		}
 		if self.background {
 			return self.commits_since_open == 0
 		}
